@@ -238,7 +238,8 @@ func (x *Exec) nilCompare(op token.Token, v Term, t types.Type, e ast.Expr, env 
 		if v.Sort == SBool {
 			isNil = Not(v)
 		} else {
-			isNil = x.dynTypeIs(v, nil)
+			// the nil interface is the distinguished zero value of the (opaque) interface sort
+			isNil = Eq(v, x.zero(t))
 		}
 	case *types.Map:
 		name := "isnil_" + sanitize(string(v.Sort))
